@@ -29,3 +29,5 @@ package footer
 //@   ensures[C11] err == nil && result0.Version >= 2 ==> fle64(data, 44) == result0.BloomFilterOffset && fle32(data, 52) == result0.BloomFilterSize && fle64(data, 60) == result0.Checksum && result0.Checksum == xxhash(bstr(data[:60]))
 //@   ensures[C11] err == nil && result0.Version < 2 ==> result0.BloomFilterOffset == 0 && result0.BloomFilterSize == 0 && result0.Checksum == xxhash(bstr(data[:44]))
 //@   ensures[C11] len(data) >= 68 && fle64(data, 0) == FooterMagic && fle32(data, 8) >= 2 && fle64(data, 60) == xxhash(bstr(data[:60])) ==> err == nil
+//@ func NewFooter
+//@   ensures[C11] result != nil && fresh(result) && result.Magic == FooterMagic && result.Version == CurrentVersion && result.IndexOffset == indexOffset && result.IndexSize == indexSize && result.NumEntries == numEntries && result.BloomFilterOffset == bloomFilterOffset && result.BloomFilterSize == bloomFilterSize
